@@ -497,6 +497,9 @@ func c26Apply(w *vx.W, s *c26State, op c26Op) bool {
 	}
 	if cc.inRecovery {
 		w.Outcome("in recovery")
+		if cc.recoveryStartTime.IsZero() {
+			w.Outcome("persistent congestion established")
+		}
 	}
 	if lim, _ := s.impl.sendLimit(s.now); lim != ccOK {
 		w.Outcome("send limit " + lim.String())
